@@ -101,6 +101,10 @@ def check_path(ctx, model, crate, label, root, start_blocks, prefix, flag, flags
 
 def run(ctx):
     model = ctx.model()
+    # P5: a paused deposit is also rejected when it comes through the frontend helper: the helper's reply propagates the
+    # pool's rejection (else only the sub-call reverts and the user's funds stay in the helper) -- C11-K5's rule
+    from .C11 import check_frontend
+    check_frontend(ctx.renamed({"C11-K5": "C17-P5"}), model)
     paths = 0
     for crate, (recv, hook_enum) in sorted(POOLS.items()):
         root = "%s::contract::execute" % crate
